@@ -256,6 +256,25 @@ fn c20wal() {
     match Memvid::open(&p) { Ok(m) => println!("C20wal open after the flip: frames = {}", m.frame_count()), Err(e) => println!("C20wal open after the flip failed: {}", e) }
 }
 
+fn c23mem() {
+    // the same cards added in the same order to two fresh tracks: are the persisted bytes identical?
+    let build = || {
+        let mut t = MemoriesTrack::new();
+        for (i, (e, sl, v)) in [("alice","employer","Acme"),("alice","city","Paris"),("bob","employer","Initech"),("bob","pet","cat"),("carol","city","Oslo"),("carol","hobby","chess")].iter().enumerate() {
+            let c = MemoryCardBuilder::new().fact().entity(*e).slot(*sl).value(*v).source(i as u64, None).engine("triage","1").document_date(1000 + i as i64).build(0).unwrap();
+            let mut c = c; c.created_at = 5000;
+            t.add_card(c);
+        }
+        t.serialize().unwrap()
+    };
+    let a = build(); let b = build();
+    // the JSON is zstd-compressed: compare the decoded documents
+    let ja = zstd::decode_all(&a[14..]).unwrap(); let jb = zstd::decode_all(&b[14..]).unwrap();
+    println!("C23mem serialized twice: {} vs {} bytes, identical = {}", a.len(), b.len(), a == b);
+    println!("C23mem decoded JSON identical = {} ; same length = {}", ja == jb, ja.len() == jb.len());
+    if ja != jb { let p = ja.iter().zip(jb.iter()).position(|(x,y)| x != y).unwrap(); println!("C23mem first difference at {}: {:?} vs {:?}", p, String::from_utf8_lossy(&ja[p.saturating_sub(20)..(p+40).min(ja.len())]), String::from_utf8_lossy(&jb[p.saturating_sub(20)..(p+40).min(jb.len())])); }
+}
+
 fn c32() {
     let dir = tempfile::tempdir().unwrap();
     let p = dir.path().join("a.mv2");
@@ -473,5 +492,5 @@ fn c08() {
 
 fn main() {
     let which = std::env::args().nth(1).unwrap_or_default();
-    match which.as_str() { "c05"=>c05(), "c26"=>c26(), "c20"=>c20(), "c20blob"=>c20blob(), "c07"=>c07(), "c39"=>c39(), "c19"=>c19(), "c02growth"=>c02growth(), "c04"=>c04(), "c20wal"=>c20wal(), "c26replay"=>c26replay(), "c18replay"=>c18replay(), "c02replay"=>c02replay(), "c32"=>c32(), "c11"=>c11(), "c17"=>c17(), "c08"=>c08(), "c29"=>c29(), "c14"=>c14(), "c09"=>c09(), "c18"=>c18(), "c23"=>c23(), "c16"=>c16(), "c40"=>c40(), "c24"=>c24(), "c15"=>c15(), "c22"=>c22(), _=>{ c05(); c26(); c20(); c11(); c17(); } }
+    match which.as_str() { "c05"=>c05(), "c26"=>c26(), "c20"=>c20(), "c20blob"=>c20blob(), "c07"=>c07(), "c39"=>c39(), "c19"=>c19(), "c02growth"=>c02growth(), "c04"=>c04(), "c23mem"=>c23mem(), "c20wal"=>c20wal(), "c26replay"=>c26replay(), "c18replay"=>c18replay(), "c02replay"=>c02replay(), "c32"=>c32(), "c11"=>c11(), "c17"=>c17(), "c08"=>c08(), "c29"=>c29(), "c14"=>c14(), "c09"=>c09(), "c18"=>c18(), "c23"=>c23(), "c16"=>c16(), "c40"=>c40(), "c24"=>c24(), "c15"=>c15(), "c22"=>c22(), _=>{ c05(); c26(); c20(); c11(); c17(); } }
 }
